@@ -21,8 +21,8 @@ RULE = ("Template documents drawn by Hypothesis: header, 0..7 bits of filler (bi
         "beyond the buffer, undecodable text) are counted, not asserted. Non-trivial: offset != 0, or length not a "
         "whole number of bytes, or a non-fixed length form, or a multi-byte character set with a delimiter.")
 ASSUMPTIONS = ["python's codec tables are trusted, the slicing is not",
-               "for UTF-8 only single-byte termination characters are generated (the library documents variable-width "
-               "terminators as unsupported)"]
+               "a UTF-8 termination character may take 1..3 bytes and may start at any byte offset (UTF-8 is "
+               "self-synchronising); in the fixed-width character sets it is searched at code-unit alignment"]
 EXHAUSTIVE = {"quick": False, "thorough": False}
 
 
@@ -95,8 +95,6 @@ def gen_blob_doc(draw):
                 b = ch.encode(xdoc.codec_for(enc))
             except UnicodeEncodeError:
                 b = "\x00".encode(xdoc.codec_for(enc))
-            if cs == "UTF-8" and len(b) != 1:
-                b = b"\x00"
             if cs != "UTF-8" and len(b) != xdoc.unit_bytes(enc):
                 b = "\x00".encode(xdoc.codec_for(enc))
             enc["delim"] = {"t": "term", "hex": b.hex().upper() if draw(st.booleans()) else b.hex()}
